@@ -14,7 +14,7 @@ DESIGN_REF = "DESIGN.md sections 0, 5 (C16), 7"
 RULE = ("case = (length, boundary set A, boundary set B built as identical / coincident / nested / interleaved / constant / independent, dtypes, values, "
         "ufunc | scalar operand and side | reduction | histogram | concatenate); oracle = numpy on decoded operands; distinct = hash of the case; "
         "non-trivial = length >= 2 and at least one operand with >= 2 runs")
-ASSUMPTIONS = ["reductions use values whose sums stay below 2**53 and dyadic floats; they are compared numerically (mean: rtol 1e-12, float32 1e-6)",
+ASSUMPTIONS = ["chains of operations never use an empty (length 0) run-length array as an operand (the statement quantifies over arrays of length >= 1)", "reductions use values whose sums stay below 2**53 and dyadic floats; they are compared numerically (mean: rtol 1e-12, float32 1e-6)",
                "events for which numpy raises on the decoded operands are 'undefined'", "histogram: non-boolean, finite values"]
 ANCHORS = ["runlengtharray.py::RunLengthArray.__array_ufunc__", "runlengtharray.py::RunLengthArray._apply_binary_func", "runlengtharray.py::RunLengthArray.sum",
            "runlengtharray.py::RunLengthArray.any", "runlengtharray.py::RunLengthArray.all", "runlengtharray.py::RunLengthArray.max", "runlengtharray.py::RunLengthArray.mean",
@@ -25,7 +25,7 @@ BINARY = ["add", "subtract", "multiply", "true_divide", "floor_divide", "remaind
 ALIGN = ["identical", "coincident", "nested", "interleaved", "constA", "constB", "independent"]
 REDS = ["sum", "any", "all", "max", "mean", "np.sum", "np.any", "np.all", "np.mean"]
 KINDS = ["unary", "rl", "rl_derived", "inplace", "pyscalar", "npscalar", "reduce", "concat", "hist"]
-FLOOR_TAGS = ["k:" + k for k in KINDS] + ["align:" + a for a in ALIGN] + ["side:L", "side:R", "kind:b", "kind:i", "kind:u", "kind:f", "noncommutative"] + ["red:" + r for r in REDS] + ["via:cmp-mixed"]
+FLOOR_TAGS = ["k:" + k for k in KINDS] + ["align:" + a for a in ALIGN] + ["side:L", "side:R", "kind:b", "kind:i", "kind:u", "kind:f", "noncommutative"] + ["red:" + r for r in REDS] + ["via:cmp-mixed", "k:chain", "step:binary", "step:slice", "step:mask", "step:concat", "step:astype", "step:scalar", "step:unary"]
 FLOOR_MONITORS = ["c16:compare", "c16:operands-unchanged", "c16:canonical", "inv:rla"]
 N_RANDOM = {"quick": 36000, "thorough": 400000}
 PYSCALARS = [2, 3, -1, 0, 2.5, True, False]
@@ -351,6 +351,8 @@ def gen_case(rng, tier, kind=None, dtype=None, align=None, uf=None):
 def directed():
     import random
     rng = random.Random(1616)
+    for c in _chains():
+        yield c
     for dtype in gen.DT_ALL:
         for kind in KINDS:
             for _ in range(4):
@@ -393,6 +395,14 @@ def directed():
             yield {"kind": "reduce2", "dtype": "int64", "vals": vals, "name": name, "via": "cmp", "cmp": cmp_, "thr": thr}
 
 
+def _chains():
+    import random
+    from .. import rlprog
+    rng = random.Random(1616)
+    for k in range(150):
+        yield rlprog.gen_chain(rng, "quick", dtype=["int64", "bool", "uint8", "float64", "int8"][k % 5])
+
+
 def sweep(tier):
     """every pair of run-boundary sets of two arrays of length 1..4 (thorough: ..6) x non-commutative / merging ufuncs:
     all relative alignments of the boundaries, exhaustively"""
@@ -413,6 +423,9 @@ def sweep(tier):
 
 
 def random_case(rng, tier):
+    if rng.random() < 0.08:
+        from .. import rlprog
+        return rlprog.gen_chain(rng, tier)
     if rng.random() < 0.1:
         v, _ = rl.gen_runs(rng, "int64", "small", 10)
         c = {"kind": "reduce2", "dtype": "int64", "vals": v.tolist(), "name": rng.choice(REDS), "via": rng.choice(["gt9", "mul0", "concat", "neg", "astype", "cmp", "cmp", "cmp"])}
@@ -425,7 +438,10 @@ def random_case(rng, tier):
 _run_plain = run
 
 
-def run(case):   # noqa: F811  -- adds reductions of *derived* encodings (which may carry equal adjacent runs)
+def run(case):   # noqa: F811  -- adds reductions of *derived* encodings (which may carry equal adjacent runs) and chains of operations
+    if case["kind"] == "chain":
+        from .. import rlprog
+        return rlprog.run_chain(case)
     if case["kind"] != "reduce2":
         return _run_plain(case)
     RLA = CTX.lib.RunLengthArray
